@@ -64,6 +64,8 @@ def plan(pid: str, cfg: catalog.Cfg, env: Any, tier: str) -> Optional[Dict[str, 
         out["time_budget_s"] = 600.0
     if sp["legal_only"]:
         out["enabled_fn"] = refmon.legal_only_enabled_fn(ref, env)
+        if tier == "quick" and cfg.keys_legal_quick and not cfg.n_instances:
+            out["keys"] = list(range(cfg.keys_legal_quick))  # mask-respecting graphs are small: a wider key window
     return out
 
 
